@@ -79,116 +79,121 @@ def run(ctx: Context) -> None:
               construct='return [g for g in geoms if isinstance(g, shapely.LineString)]')
 
     # ---- R18.2
-    pts = m.stmt('$points = [shapely.Point($piece.coords[0]), shapely.Point($piece.coords[-1])]')
-    proj = m.stmt('$proj = (($pt, self.distance_along_line($pt)) for $pt in $points)') or m.stmt('$proj = [($pt, self.distance_along_line($pt)) for $pt in $points]')
-    ctx.check('R18.2', pts is not None and proj is not None, "the end points are the first and last coordinate of the piece, each with its distance along the path", seg,
-              pts or seg.node, construct='points = [Point(piece.coords[0]), Point(piece.coords[-1])]; projections = ((p, distance_along_line(p)) for p in points)')
-    srt = m.stmt('$start, $end = sorted($proj, key=lambda $pair: $pair[1])')
-    ctx.check('R18.2', srt is not None, "start and end are the two end points sorted ascending by distance", seg, srt or seg.node,
-              construct='start, end = sorted(projections, key=lambda pair: pair[1])')
-    ok = all(k in kw for k in ('start_point', 'end_point', 'start_distance', 'end_distance')) and \
-        m.match('$start[0]', kw['start_point'], commit=False) and m.match('$end[0]', kw['end_point'], commit=False) and \
-        m.match('$start[1]', kw['start_distance'], commit=False) and m.match('$end[1]', kw['end_distance'], commit=False)
-    ctx.check('R18.2', bool(ok), "start_* fields take the nearer end, end_* the farther", seg, ts[0])
-    rets = seg.returns()
-    seglist = norm_text(app[0].func.value) if app else 'segments'
-    ok = bool(rets) and all(Matcher(ctx, seg).match(f"sorted({seglist}, key=lambda $i: ($i.start_distance, $i.end_distance))", r.value) for r in rets)
-    ctx.check('R18.2', ok, "segments are returned sorted by (start distance, end distance)", seg, rets[0] if rets else seg.node)
+    with ctx.section('R18.2'):
+        pts = m.stmt('$points = [shapely.Point($piece.coords[0]), shapely.Point($piece.coords[-1])]')
+        proj = m.stmt('$proj = (($pt, self.distance_along_line($pt)) for $pt in $points)') or m.stmt('$proj = [($pt, self.distance_along_line($pt)) for $pt in $points]')
+        ctx.check('R18.2', pts is not None and proj is not None, "the end points are the first and last coordinate of the piece, each with its distance along the path", seg,
+                  pts or seg.node, construct='points = [Point(piece.coords[0]), Point(piece.coords[-1])]; projections = ((p, distance_along_line(p)) for p in points)')
+        srt = m.stmt('$start, $end = sorted($proj, key=lambda $pair: $pair[1])')
+        ctx.check('R18.2', srt is not None, "start and end are the two end points sorted ascending by distance", seg, srt or seg.node,
+                  construct='start, end = sorted(projections, key=lambda pair: pair[1])')
+        ok = all(k in kw for k in ('start_point', 'end_point', 'start_distance', 'end_distance')) and \
+            m.match('$start[0]', kw['start_point'], commit=False) and m.match('$end[0]', kw['end_point'], commit=False) and \
+            m.match('$start[1]', kw['start_distance'], commit=False) and m.match('$end[1]', kw['end_distance'], commit=False)
+        ctx.check('R18.2', bool(ok), "start_* fields take the nearer end, end_* the farther", seg, ts[0])
+        rets = seg.returns()
+        seglist = norm_text(app[0].func.value) if app else 'segments'
+        ok = bool(rets) and all(Matcher(ctx, seg).match(f"sorted({seglist}, key=lambda $i: ($i.start_distance, $i.end_distance))", r.value) for r in rets)
+        ctx.check('R18.2', ok, "segments are returned sorted by (start distance, end distance)", seg, rets[0] if rets else seg.node)
 
     # ---- R18.3
-    td = ctx.func(f"{TR}.transect_dataset")
-    mt = Matcher(ctx, td)
-    li = mt.stmt('$lis = [$s.linear_index for $s in self.segments]')
-    ctx.check('R18.3', li is not None, "linear indexes: one per segment, in segment order, unfiltered", td, li or td.node,
-              construct='linear_indexes = [segment.linear_index for segment in self.segments]')
-    db = [c for c in calls_in(td) if callee(ctx, td, c) == 'numpy.fromiter']
-    ok = (len(db) == 1 and Matcher(ctx, td).match('([$s.start_distance, $s.end_distance] for $s in self.segments)', db[0].args[0])
-          and norm_text(kwarg(db[0], 'count') or ast.Constant(None)) == 'len(self.segments)')
-    ctx.check('R18.3', ok, "distance bounds: [start, end] per segment over the same list in the same order", td, db[0] if db else td.node)
-    lin = mt.stmt("$lin = xarray.DataArray(data=$lis, dims=('index',))")
-    dbv = None
-    for n in walk_no_nested(td.node):
-        if isinstance(n, ast.Assign) and isinstance(n.value, ast.Call) and db and kwarg(n.value, 'data') is db[0]:
-            dbv = n
-    ok = lin is not None and dbv is not None and norm_text(kwarg(dbv.value, 'dims') or ast.Constant(None)) == "('index', 'bounds')"
-    ctx.check('R18.3', ok, "both are on the transect's index dimension", td, lin or td.node)
-    ds = [c for c in calls_in(td) if (callee(ctx, td, c) or '').endswith('xarray.Dataset')]
-    ok = False
-    if len(ds) == 1 and dbv is not None and lin is not None:
-        dv, co = kwarg(ds[0], 'data_vars'), kwarg(ds[0], 'coords')
-        if isinstance(dv, ast.Dict) and isinstance(co, ast.Dict):
-            dvm = {const_value(k, None): norm_text(v) for k, v in zip(dv.keys, dv.values)}
-            com = {const_value(k, None): norm_text(v) for k, v in zip(co.keys, co.values)}
-            ok = dvm.get('distance_bounds') == norm_text(dbv.targets[0]) and com.get('linear_index') == mt.name('lin') \
-                and set(dvm) == {'depth_bounds', 'distance_bounds'} and set(com) == {'depth', 'linear_index'}
-    ctx.check('R18.3', ok, "the dataset publishes exactly those variables under their names", td, ds[0] if ds else td.node)
+    with ctx.section('R18.3'):
+        td = ctx.func(f"{TR}.transect_dataset")
+        mt = Matcher(ctx, td)
+        li = mt.stmt('$lis = [$s.linear_index for $s in self.segments]')
+        ctx.check('R18.3', li is not None, "linear indexes: one per segment, in segment order, unfiltered", td, li or td.node,
+                  construct='linear_indexes = [segment.linear_index for segment in self.segments]')
+        db = [c for c in calls_in(td) if callee(ctx, td, c) == 'numpy.fromiter']
+        ok = (len(db) == 1 and Matcher(ctx, td).match('([$s.start_distance, $s.end_distance] for $s in self.segments)', db[0].args[0])
+              and norm_text(kwarg(db[0], 'count') or ast.Constant(None)) == 'len(self.segments)')
+        ctx.check('R18.3', ok, "distance bounds: [start, end] per segment over the same list in the same order", td, db[0] if db else td.node)
+        lin = mt.stmt("$lin = xarray.DataArray(data=$lis, dims=('index',))")
+        dbv = None
+        for n in walk_no_nested(td.node):
+            if isinstance(n, ast.Assign) and isinstance(n.value, ast.Call) and db and kwarg(n.value, 'data') is db[0]:
+                dbv = n
+        ok = lin is not None and dbv is not None and norm_text(kwarg(dbv.value, 'dims') or ast.Constant(None)) == "('index', 'bounds')"
+        ctx.check('R18.3', ok, "both are on the transect's index dimension", td, lin or td.node)
+        ds = [c for c in calls_in(td) if (callee(ctx, td, c) or '').endswith('xarray.Dataset')]
+        ok = False
+        if len(ds) == 1 and dbv is not None and lin is not None:
+            dv, co = kwarg(ds[0], 'data_vars'), kwarg(ds[0], 'coords')
+            if isinstance(dv, ast.Dict) and isinstance(co, ast.Dict):
+                dvm = {const_value(k, None): norm_text(v) for k, v in zip(dv.keys, dv.values)}
+                com = {const_value(k, None): norm_text(v) for k, v in zip(co.keys, co.values)}
+                ok = dvm.get('distance_bounds') == norm_text(dbv.targets[0]) and com.get('linear_index') == mt.name('lin') \
+                    and set(dvm) == {'depth_bounds', 'distance_bounds'} and set(com) == {'depth', 'linear_index'}
+        ctx.check('R18.3', ok, "the dataset publishes exactly those variables under their names", td, ds[0] if ds else td.node)
 
     # ---- R18.4
-    pa = ctx.func(f"{TR}.prepare_data_array_for_transect")
-    mp_ = Matcher(ctx, pa)
-    da = pa.params[1]
-    steps = [
-        (f"{da} = self.convention.ravel({da})", "the variable is flattened by the convention (linear index order on the last dimension)"),
-        ("$depth_dim = self.transect_dataset.coords['depth'].dims[0]", "the depth dimension is the transect's depth coordinate's"),
-        (f"$index_dim = {da}.dims[-1]", "the index dimension is the flattened (last) one"),
-        (f"{da} = move_dimensions_to_end({da}, [$depth_dim, $index_dim])", "depth then index are moved last, in that order"),
-        ("$lis = self.transect_dataset['linear_index'].values", "the linear indexes are the transect's own"),
-        (f"{da} = {da}.isel({{$index_dim: $lis}})", "cells are picked positionally (isel) along the index dimension with those indexes"),
-    ]
-    found = []
-    for pat, text in steps:
-        st = mp_.stmt(pat)
-        found.append(st)
-        ctx.check('R18.4', st is not None, text, pa, st or pa.node, construct=pat.replace('$', ''))
-    # the index dimension must be read after ravel and before the move; the move before the selection
-    order_ok = all(x is not None for x in found) and _line(found[0]) < _line(found[2]) < _line(found[3]) < _line(found[5]) \
-        and _line(found[1]) < _line(found[3]) and _line(found[4]) < _line(found[5])
-    ctx.check('R18.4', order_ok, "those steps happen in a sound order (ravel, read index dimension, move, select)", pa, pa.node,
-              construct=f"step lines {[_line(x) for x in found]}")
-    mpc = ctx.func(f"{TR}.make_poly_collection")
-    comps = [n for n in ast.walk(mpc.node) if isinstance(n, ast.ListComp) and len(n.generators) == 2]
-    ok = False
-    if len(comps) == 1:
-        g0, g1 = comps[0].generators
-        dvar, ivar = norm_text(g0.target), norm_text(g1.target)
-        ok = (norm_text(g0.iter).replace(' ', '') in ("range(transect_dataset.coords['depth'].size)", "range(transect_dataset.sizes['depth'])".replace(' ', ''))
-              or 'depth' in norm_text(g0.iter)) and "'index'" in norm_text(g1.iter) and 'depth' not in norm_text(g1.iter)
-        elt = norm_text(comps[0].elt)
-        ok = ok and f"[{ivar}, 0]" in elt and f"[{ivar}, 1]" in elt and f"[{dvar}][0]" in elt and f"[{dvar}][1]" in elt
-    ctx.check('R18.4', ok, "patches are generated depth-major, segment-minor: patch k = (depth k // n, segment k % n), as values.flatten() of (depth, index)", mpc,
-              comps[0] if comps else mpc.node)
-    for name in ('plot_on_figure', 'animate_on_figure'):
-        fi = ctx.func(f"{TR}.{name}")
-        sets = [c for c in calls_in(fi, nested=True) if isinstance(c.func, ast.Attribute) and c.func.attr == 'set_array']
-        ok = len(sets) == 1 and norm_text(sets[0].args[0]).endswith('.values.flatten()')
-        ctx.check('R18.4', ok, "the values handed to the collection are the prepared array flattened row-major", fi, sets[0] if sets else fi.node,
-                  construct=f"{name}: {norm_text(sets[0]) if sets else 'set_array not found'}")
+    with ctx.section('R18.4'):
+        pa = ctx.func(f"{TR}.prepare_data_array_for_transect")
+        mp_ = Matcher(ctx, pa)
+        da = pa.params[1]
+        steps = [
+            (f"{da} = self.convention.ravel({da})", "the variable is flattened by the convention (linear index order on the last dimension)"),
+            ("$depth_dim = self.transect_dataset.coords['depth'].dims[0]", "the depth dimension is the transect's depth coordinate's"),
+            (f"$index_dim = {da}.dims[-1]", "the index dimension is the flattened (last) one"),
+            (f"{da} = move_dimensions_to_end({da}, [$depth_dim, $index_dim])", "depth then index are moved last, in that order"),
+            ("$lis = self.transect_dataset['linear_index'].values", "the linear indexes are the transect's own"),
+            (f"{da} = {da}.isel({{$index_dim: $lis}})", "cells are picked positionally (isel) along the index dimension with those indexes"),
+        ]
+        found = []
+        for pat, text in steps:
+            st = mp_.stmt(pat)
+            found.append(st)
+            ctx.check('R18.4', st is not None, text, pa, st or pa.node, construct=pat.replace('$', ''))
+        # the index dimension must be read after ravel and before the move; the move before the selection
+        order_ok = all(x is not None for x in found) and _line(found[0]) < _line(found[2]) < _line(found[3]) < _line(found[5]) \
+            and _line(found[1]) < _line(found[3]) and _line(found[4]) < _line(found[5])
+        ctx.check('R18.4', order_ok, "those steps happen in a sound order (ravel, read index dimension, move, select)", pa, pa.node,
+                  construct=f"step lines {[_line(x) for x in found]}")
+        mpc = ctx.func(f"{TR}.make_poly_collection")
+        comps = [n for n in ast.walk(mpc.node) if isinstance(n, ast.ListComp) and len(n.generators) == 2]
+        ok = False
+        if len(comps) == 1:
+            g0, g1 = comps[0].generators
+            dvar, ivar = norm_text(g0.target), norm_text(g1.target)
+            ok = (norm_text(g0.iter).replace(' ', '') in ("range(transect_dataset.coords['depth'].size)", "range(transect_dataset.sizes['depth'])".replace(' ', ''))
+                  or 'depth' in norm_text(g0.iter)) and "'index'" in norm_text(g1.iter) and 'depth' not in norm_text(g1.iter)
+            elt = norm_text(comps[0].elt)
+            ok = ok and f"[{ivar}, 0]" in elt and f"[{ivar}, 1]" in elt and f"[{dvar}][0]" in elt and f"[{dvar}][1]" in elt
+        ctx.check('R18.4', ok, "patches are generated depth-major, segment-minor: patch k = (depth k // n, segment k % n), as values.flatten() of (depth, index)", mpc,
+                  comps[0] if comps else mpc.node)
+        for name in ('plot_on_figure', 'animate_on_figure'):
+            fi = ctx.func(f"{TR}.{name}")
+            sets = [c for c in calls_in(fi, nested=True) if isinstance(c.func, ast.Attribute) and c.func.attr == 'set_array']
+            ok = len(sets) == 1 and norm_text(sets[0].args[0]).endswith('.values.flatten()')
+            ctx.check('R18.4', ok, "the values handed to the collection are the prepared array flattened row-major", fi, sets[0] if sets else fi.node,
+                      construct=f"{name}: {norm_text(sets[0]) if sets else 'set_array not found'}")
 
     # ---- R18.5
-    dl = ctx.func(f"{TR}.distance_along_line")
-    md = Matcher(ctx, dl)
-    pt_p = dl.params[1]
-    ok = md.has(f"$dn = self.line.project({pt_p}, normalized=True)",
-                "$lp = next(($v for $v in reversed(self.points) if $v.distance_normalised <= $dn))")
-    dist = md.stmt(f"$d = ORIGIN.distance($lp.crs.project_geometry({pt_p}, src_crs=$crs))")
-    rets = dl.returns()
-    ok = ok and dist is not None and bool(rets) and all(md.match('$lp.distance_metres + $d', r.value, commit=False) or md.match('$d + $lp.distance_metres', r.value, commit=False) for r in rets)
-    ctx.check('R18.5', ok, "distance = cumulative distance of the last path vertex at or before the point + distance from that vertex (in that vertex's projection)", dl, dl.node)
-    guard = md.stmt('if $dn < 0 or $dn > 1:\n    raise ValueError($$msg)')
-    ctx.check('R18.5', guard is not None, "a point off the path is refused", dl, guard or dl.node)
-    pt = ctx.func(f"{TR}.points")
-    mq = Matcher(ctx, pt)
-    loop = mq.stmt('for $pt in map(shapely.Point, self.line.coords[1:]):\n    ...')
-    ok = loop is not None and mq.has('$prev = $points[-1]', '$step = ORIGIN.distance($prev.crs.project_geometry($pt, src_crs=$crs))', within=loop)
-    tp = [c for c in calls_in(pt) if (dotted(c.func) or '').endswith('TransectPoint') and loop is not None and any(x is c for x in ast.walk(loop))]
-    ok = ok and len(tp) == 1 and mq.match('$prev.distance_metres + $step', kwarg(tp[0], 'distance_metres'), commit=False) \
-        and mq.match('self.line.project($pt, normalized=True)', kwarg(tp[0], 'distance_normalised'), commit=False) \
-        and mq.match('$pt', kwarg(tp[0], 'point'), commit=False)
-    ctx.check('R18.5', bool(ok), "path vertices accumulate distance from their predecessor, in path order", pt, loop or pt.node)
-    first = [c for c in calls_in(pt) if (dotted(c.func) or '').endswith('TransectPoint') and (loop is None or not any(x is c for x in ast.walk(loop)))]
-    ok = len(first) == 1 and const_value(kwarg(first[0], 'distance_metres'), None) == 0 and const_value(kwarg(first[0], 'distance_normalised'), None) == 0 \
-        and mq.stmt('$p0 = shapely.Point(self.line.coords[0])') is not None
-    ctx.check('R18.5', ok, "the first vertex is at distance 0", pt, first[0] if first else pt.node)
+    with ctx.section('R18.5'):
+        dl = ctx.func(f"{TR}.distance_along_line")
+        md = Matcher(ctx, dl)
+        pt_p = dl.params[1]
+        ok = md.has(f"$dn = self.line.project({pt_p}, normalized=True)",
+                    "$lp = next(($v for $v in reversed(self.points) if $v.distance_normalised <= $dn))")
+        dist = md.stmt(f"$d = ORIGIN.distance($lp.crs.project_geometry({pt_p}, src_crs=$crs))")
+        rets = dl.returns()
+        ok = ok and dist is not None and bool(rets) and all(md.match('$lp.distance_metres + $d', r.value, commit=False) or md.match('$d + $lp.distance_metres', r.value, commit=False) for r in rets)
+        ctx.check('R18.5', ok, "distance = cumulative distance of the last path vertex at or before the point + distance from that vertex (in that vertex's projection)", dl, dl.node)
+        guard = md.stmt('if $dn < 0 or $dn > 1:\n    raise ValueError($$msg)')
+        ctx.check('R18.5', guard is not None, "a point off the path is refused", dl, guard or dl.node)
+        pt = ctx.func(f"{TR}.points")
+        mq = Matcher(ctx, pt)
+        loop = mq.stmt('for $pt in map(shapely.Point, self.line.coords[1:]):\n    ...')
+        ok = loop is not None and mq.has('$prev = $points[-1]', '$step = ORIGIN.distance($prev.crs.project_geometry($pt, src_crs=$crs))', within=loop)
+        tp = [c for c in calls_in(pt) if (dotted(c.func) or '').endswith('TransectPoint') and loop is not None and any(x is c for x in ast.walk(loop))]
+        ok = ok and len(tp) == 1 and mq.match('$prev.distance_metres + $step', kwarg(tp[0], 'distance_metres'), commit=False) \
+            and mq.match('self.line.project($pt, normalized=True)', kwarg(tp[0], 'distance_normalised'), commit=False) \
+            and mq.match('$pt', kwarg(tp[0], 'point'), commit=False)
+        ctx.check('R18.5', bool(ok), "path vertices accumulate distance from their predecessor, in path order", pt, loop or pt.node)
+        first = [c for c in calls_in(pt) if (dotted(c.func) or '').endswith('TransectPoint') and (loop is None or not any(x is c for x in ast.walk(loop)))]
+        ok = len(first) == 1 and const_value(kwarg(first[0], 'distance_metres'), None) == 0 and const_value(kwarg(first[0], 'distance_normalised'), None) == 0 \
+            and mq.stmt('$p0 = shapely.Point(self.line.coords[0])') is not None
+        ctx.check('R18.5', ok, "the first vertex is at distance 0", pt, first[0] if first else pt.node)
+
 
 
 # --------------------------------------------------------------------------- checker self-test
